@@ -53,7 +53,14 @@ def _result_sampling_synth(w, o):
 @op("result_from_sim")
 def _result_from_sim(w, o):
     c = w.get("c", o["c"])
-    sim = w.call(emu.Simulator, c)
+    if o.get("reuse"):
+        # one long-lived Simulator per circuit, used for many results
+        sims = w.extra.setdefault("sims", {})
+        if o["c"] not in sims:
+            sims[o["c"]] = w.call(emu.Simulator, c)
+        sim = sims[o["c"]]
+    else:
+        sim = w.call(emu.Simulator, c)
     ins = _states(o["inputs"])
     r = w.call(sim.simulate, ins if len(ins) > 1 else ins[0])
     w.put("res", o["out"], r, rkind="sim", src=np.array(r.array),
@@ -161,7 +168,7 @@ class ResultUser(Client):
         if len(ids) < 2 or (len(ids) < 8 and r.random() < 0.3):
             return self.create()
         rid = self.pick(ids)
-        k = r.choice(["map", "map", "map", "index", "display"])
+        k = r.choice(["map", "map", "map", "index", "index", "display"])
         if k == "index":
             return {"op": "result_index", "r": rid}
         if k == "display":
@@ -222,8 +229,11 @@ class ResultUser(Client):
                 s[r.randrange(c.input_modes)] += 1
             if s not in ins:
                 ins.append(s)
-        return {"op": "result_from_sim" if k == "sim" else "result_from_analyzer",
-                "c": cid, "inputs": ins, "out": out}
+        o = {"op": "result_from_sim" if k == "sim" else "result_from_analyzer",
+             "c": cid, "inputs": ins, "out": out}
+        if k == "sim" and r.random() < 0.6:
+            o["reuse"] = True
+        return o
 
 
 def thr(s, invert):
